@@ -41,6 +41,9 @@ PATTERNS = [
     ("done", r"^(?P<date>[0-9]{4}[01][0-9][0-3][0-9])_done\.zo$", "date"),
     ("day", r"^(?P<date>[0-9]{4}[01][0-9][0-3][0-9])[a-z_]*\.zo$", "date"),
     ("ydir", r"^[0-9]{4}/(?P<date>[0-9]{8})\.zo$", "date"),
+    # captures that merely START like a date (eight date-like digits followed by more characters): plain strings
+    ("stamp", r"^(?P<name>[0-9]{8}_[a-z]+)\.zo$", "name"),
+    ("nine", r"^(?P<name>[0-9]{9})\.zo$", "name"),
     ("subname", r"^sub/(?P<name>[a-z_]+)\.zo$", "name"),
     ("name", r"^(?P<name>[a-z_]+)\.zo$", "name"),
     ("all", r"^.*\.zo$", ""),
@@ -50,7 +53,7 @@ PATTERNS = [
     ("md", r"^refs/[a-z]+\.md$", ""),
     ("any", r"^.+$", ""),
 ]
-TARGETS = ["20240131_habit.zo", "20240131_done", "20240229.zo", "20241231_day_x.zo", "2024/20240101.zo", "sub/notes.zo", "sub/in_box", "notes", "prj_zorg.zo", "prj_zorg", "sub/deep/x.zo", "other.zo", "my notes".replace(" ", "_") + ".zo", "sub/my_notes.zo", "UPPER.zo",
+TARGETS = ["20240131_habit.zo", "20240131_done", "202401315.zo", "202401315", "20240131_todo.zo", "20240229.zo", "20241231_day_x.zo", "2024/20240101.zo", "sub/notes.zo", "sub/in_box", "notes", "prj_zorg.zo", "prj_zorg", "sub/deep/x.zo", "other.zo", "my notes".replace(" ", "_") + ".zo", "sub/my_notes.zo", "UPPER.zo",
            "queries/open.zoq", "queries/closed.zoq", "refs/books.md", "v1.2", "sub/list.txt", "refs/books.md", "queries/open.zoq"]
 
 
